@@ -347,6 +347,14 @@ func runC03(r *chk.Run) {
 			hr.add(in)
 		}
 	}
+	// heartbeats (the master is idle) behind a rotation, in front of a file's
+	// first transaction: the labels are those of the commit events all the same
+	for _, cfg := range []ref.Cfg{cfgA, cfgB} {
+		for _, units := range [][]string{{UTxXID, URotate, UHeartbeat, UTxXID}, {UTxXID, UHeartbeat, UDDL, URotate, UHeartbeat, UHeartbeat, UTxCommit, UHeartbeat}, {UHeartbeat, UTxXID, URotate, URotate, UHeartbeat, UAutoRows}} {
+			hr.add(HistInput{Units: units, Cfg: cfg, LockStep: true, Oracle: "resume"})
+			hr.add(HistInput{Units: units, Cfg: cfg, LockStep: false, Oracle: "resume", EmptyStart: true})
+		}
+	}
 	// the caller moves the Streamer between two Stream calls
 	for _, cfg := range []ref.Cfg{cfgA, cfgB} {
 		for _, units := range [][]string{{UTxXID, URotate, UTxCommit, UTxXID}, {UDDL, UTx2, UAutoRows}, {UTxXID, UTxRollback, URotate, URotate, UTxXID}} {
